@@ -17,6 +17,7 @@ CACHE_OPS = {
     "tensordot": 7, "align_axes": 3, "transpose": 3, "conj": 3, "dagger": 2,
     "svd_truncated": 2, "squeeze": 1, "expand_dims": 1, "sync_charges": 2,
     "multiply_diagonal": 2, "matmul": 1, "einsum": 1, "qr": 1, "copy": 1,
+    "tdot_scalar": 1,
 }
 
 UNARY_ECHO = {
